@@ -52,7 +52,7 @@ Proof. exact cs_spec. Qed.
 (** Any trajectory of strategies and fee estimates after a first broadcast: see [chain_ok]. *)
 Theorem C07_fee_trajectory : forall w amt dust steps f r,
   W0 <= w <= MAX_WEIGHT -> 0 <= amt <= MAX_MONEY_SAT -> 0 < dust < 2 ^ 63 ->
-  0 <= r -> r * w <= MAX_PREV_RATE_X_WEIGHT -> tracked w f r ->
+  0 <= r -> r * w <= MAX_PREV_RATE_X_WEIGHT -> fee_tracked w f r ->
   steps_in_range steps ->
   chain_ok w f r (bumps w amt dust r steps).
 Proof. exact trajectory. Qed.
@@ -62,7 +62,7 @@ Proof. exact chain_ok_sorted. Qed.
 
 Theorem C07_first_broadcast_tracked : forall amt w sweep f r,
   0 < w -> 0 <= amt -> 0 <= sweep ->
-  compute_fee_from_spent_amounts amt w sweep = Some (f, r) -> tracked w f r.
+  compute_fee_from_spent_amounts amt w sweep = Some (f, r) -> fee_tracked w f r.
 Proof. exact first_broadcast_tracked. Qed.
 
 (** The absolute fee of a pure re-broadcast is NOT monotone to the satoshi (rounding of the recorded
@@ -129,3 +129,93 @@ Example C07_timer_example :
   get_height_timer [CounterpartyOfferedHTLC 110; CounterpartyReceivedHTLC 90] 0 100 = 103 /\
   get_height_timer [CounterpartyOfferedHTLC 102] 0 100 = 101.
 Proof. vm_compute. split; reflexivity. Qed.
+
+(** * Claim coverage, finality, conservation (hand model Model/OnchainClaims.v, trace-validated) *)
+Require Import LdkV.Model.OnchainClaims LdkV.Proofs.C07Claims LdkV.Proofs.C07Conserve.
+
+(** Exactly the entitled HTLC outputs get a claim, of the right kind: every non-dust HTLC the node
+    offered (by timeout), every non-dust HTLC offered to it whose preimage it knows (by preimage) --
+    and nothing else (no dust, no inbound HTLC without preimage). *)
+Theorem C07_entitled_claimed : forall h known,
+  (forall k, claim_request h known = Some k <->
+     h_output h = true /\
+     ((h_outbound h = true /\ k = ByTimeout) \/ (h_outbound h = false /\ known = true /\ k = ByPreimage))) /\
+  (claim_request h known = None <->
+     h_output h = false \/ (h_outbound h = false /\ known = false)).
+Proof. exact claim_request_spec. Qed.
+
+(** A claim requested at height [req] is released exactly from [first_broadcast] on (a timeout claim
+    from max(req, expiry), a preimage claim at once); whenever released its nLockTime is at most the
+    current height (final in the next block); a timeout claim never precedes the expiry. *)
+Theorem C07_final_when_broadcast : forall s k h req cur,
+  0 <= req <= cur -> 0 <= h_expiry h ->
+  (claim_released s k h cur = true <-> first_broadcast k h req <= cur) /\
+  (claim_released s k h cur = true -> claim_locktime s k h cur <= cur) /\
+  (k = ByTimeout -> claim_released s k h cur = true -> h_expiry h <= cur /\ h_expiry h <= claim_locktime s k h cur) /\
+  (k = ByPreimage -> claim_released s k h cur = true).
+Proof. exact released_spec. Qed.
+
+Theorem C07_claim_locktime_no_panic : forall s k h, package_locktime_safe [claim_input s k h] = true.
+Proof. exact claim_locktime_safe. Qed.
+
+(** What is announced as spendable is buried by ANTI_REORG_DELAY and, if CSV-delayed by [dd], has [dd]
+    confirmations in the next block. *)
+Theorem C07_spendable_when_final : forall h g src d,
+  let e := mkEntry h (EvMaturing g src d) in
+  h + ANTI_REORG_DELAY - 1 <= threshold e /\
+  (forall dd, d = Some dd -> h + dd <= threshold e + 1).
+Proof. exact maturing_final. Qed.
+
+(** For every closure state, every set of preimages known at the close, every well-formed sequence of
+    blocks (any spends of HTLC outputs by either side, in any order, any delays) and late preimages:
+    counted balances + gross value handed out as SpendableOutputs + value irrevocably taken by the
+    counterparty = main balance + every HTLC the node could win. *)
+Theorem C07_balances_conserve : forall c k0 ops,
+  wf c k0 ops ->
+  let st := run c k0 ops in
+  balance_total c st + spendable_total st + lost_total c ops st = owed_total c st.
+Proof. exact balances_conserve. Qed.
+
+Theorem C07_balances_drained : forall c k0 ops,
+  wf c k0 ops -> balances c (run c k0 ops) = [] ->
+  spendable_total (run c k0 ops) + lost_total c ops (run c k0 ops) = owed_total c (run c k0 ops).
+Proof. exact balances_drained. Qed.
+
+(** The duplicate filter of [update_claims_view_from_requests] keeps the in-flight outpoints
+    duplicate-free for ANY stream of requests as long as no requests are aggregated ... *)
+Theorem C07_no_duplicate_claims_partial : forall reqs,
+  NoDup (in_flight (add_all (mkView [] []) reqs)).
+Proof. exact no_duplicates_from_empty. Qed.
+
+(** ... and fails with aggregation (finding C07-F2; the check replays it on the real monitor). *)
+Theorem C07_no_duplicate_claims_refuted :
+  let v1 := add_requests (mkView [] []) 13 83 [4; 6] in
+  let v2 := add_requests v1 24 83 [4; 6] in
+  NoDup (in_flight v1) /\ in_flight v2 = [4; 6; 4; 6] /\ ~ NoDup (in_flight v2).
+Proof. exact duplicates_after_aggregation. Qed.
+
+(** Non-vacuity: a counterparty close with four HTLCs; the peer takes HTLC 0 with the preimage, the
+    node claims HTLC 1, learns the preimage of HTLC 3 too late. *)
+Definition ex_closure := mkClosure CounterpartyTx 100 5000 144
+  [mkHtlc true 3000 150 true; mkHtlc false 4000 160 true; mkHtlc false 2 155 false; mkHtlc false 1000 170 true].
+Definition ex_ops : list op :=
+  [OpBlock true [mkSpend 0 false true]; OpBlock true []; OpBlock true [mkSpend 1 true true]] ++ repeat (OpBlock true []) 5 ++
+  [OpPreimage 3%nat] ++ repeat (OpBlock true []) 70 ++ [OpBlock true [mkSpend 3 false false]] ++ repeat (OpBlock true []) 6.
+Example C07_wf_example : wf ex_closure [1%nat] ex_ops.
+Proof.
+  unfold wf. split; [vm_compute; discriminate|]. split; [vm_compute; discriminate|]. split.
+  - unfold ex_ops, ex_closure. cbn [app repeat ops_ok].
+    repeat (split; [first [apply Forall_nil | apply Forall_cons; [|apply Forall_nil]]|]); try exact I;
+      eexists; (split; [reflexivity|]); unfold spend_ok; cbn; repeat split; intros; try discriminate; try reflexivity.
+  - vm_compute. repeat constructor; cbn; intuition discriminate.
+Qed.
+Example C07_conserve_example :
+  let st := run ex_closure [1%nat] ex_ops in
+  best st = 185 /\ balances ex_closure st = [] /\ spendable_total st = 9000 /\
+  lost_total ex_closure ex_ops st = 4000 /\ owed_total ex_closure st = 13000.
+Proof. vm_compute. repeat split. Qed.
+Example C07_release_example :
+  claim_released CounterpartyTx ByTimeout (mkHtlc true 3000 150 true) 149 = false /\
+  claim_released CounterpartyTx ByTimeout (mkHtlc true 3000 150 true) 150 = true /\
+  claim_locktime HolderTx ByTimeout (mkHtlc true 3000 150 true) 160 = 150.
+Proof. vm_compute. repeat split. Qed.
